@@ -290,7 +290,7 @@ def prove_with_refinement(ctx, label, cond):
         has_abs = bool(ctx.uf_terms) or bool(ctx.nl_seen)
         if rounds >= ctx.refine_rounds or not has_abs or refine(ctx, m) == 0:
             # last resort: the abstract products/quotients replaced by exact multiplication/division (nonlinear real arithmetic)
-            if ctx.nl_seen and _exact_unsat(ctx, neg):
+            if ctx.nl_seen and ctx.exact_fallback and _exact_unsat(ctx, neg):
                 ctx.obls.append((label, "unsat-refined", None, None))
                 return True
             ctx.obls.append((label, "sat-unconfirmed", vals, None))
@@ -465,6 +465,7 @@ def _get_ctx(h):
         _WCTX[key] = c
     c.refine_rounds = h.opts.get("refine_rounds", 4)
     c.round_enum = h.opts.get("round_enum", 0)
+    c.exact_fallback = h.opts.get("exact_fallback", False)
     return c
 
 
